@@ -14,7 +14,7 @@ import (
 )
 
 var Spec = engine.Spec{
-	ID: "C15", Run: Run, QuickBud: 4 * time.Minute, ThorBud: 25 * time.Minute,
+	ID: "C15", Run: Run, MapOrders: true, QuickBud: 4 * time.Minute, ThorBud: 25 * time.Minute,
 	Technique: "explicit enumeration of all small directed multigraphs x root sets x start nodes x depths, real NodeGraph/NodeSiblings/NodeDescendants against a BFS reference model; all permutations of node and edge lists",
 	Rule:      "case = (node ids, ordered edge-object list, root subset, start id); distinct state = canonical graph key + start; every case runs NodeGraph, NodeSiblings and NodeDescendants(1..n+1)",
 	Assume:    []string{"edge lower bound read as: every edge leaving an expanded node towards a returned node is kept"},
@@ -247,6 +247,7 @@ func Run(c *engine.Ctx) {
 						if v != nil {
 							return v
 						}
+						t.Observe(obs)
 						if gen.ListKey(nl) != before {
 							// operand mutation is C11's business; note only
 						}
@@ -301,6 +302,7 @@ func Run(c *engine.Ctx) {
 						if v != nil {
 							return v
 						}
+						t.Observe(obs)
 						t.State(fmt.Sprintf("type%d|shape%d|%v|%s", et, si, roots, st))
 						t.Outcome(outcomeClass(obs))
 						return nil
@@ -337,6 +339,7 @@ func Run(c *engine.Ctx) {
 						if v != nil {
 							return v
 						}
+						t.Observe(obs)
 						t.State(fmt.Sprintf("wide|%s|%v|%s", sn, roots, st))
 						t.Outcome("wide " + outcomeClass(obs)[:20])
 						return nil
